@@ -43,7 +43,11 @@ class UserString(String):
 
 
 class UserEntry(Entry):
-    """A user-defined subclass: it is an Entry for every clause of the property."""
+    """A user-defined subclass: it is an Entry for every clause of the property.  It also has a length (its number of
+    fields), so an instance without fields is falsy - and still an entry that holds its key."""
+
+    def __len__(self):
+        return len(self.fields)
 
 
 # key texts: the universe's keys 'a' / 'b' may be swapped for texts that mean something to %-formats, templates and
@@ -86,7 +90,16 @@ def foreign():
         "xDF": lambda: DuplicateFieldKeyBlock({"x"}, Entry("y", "b", [Field("x", "1"), Field("x", "2")], raw="@y{b, x = 1, x = 2}")),
         "xME": lambda: MiddlewareErrorBlock(Entry("article", "a", [Field("author", "A,")], raw="@article{a, author = {A,}}"), error=ValueError("bad name")),
         "xF": lambda: ParsingFailedBlock(error=Exception("e"), raw="@broken{"),
+        # twins of universe blocks that differ in their parser metadata only: different blocks (== says so)
+        "xPm": lambda: _with_meta(Preamble("p"), {"note": 1}),
+        "xEbm": lambda: _with_meta(UserEntry("article", _k("b"), []), {"note": 1}),
     }
+
+
+def _with_meta(b, meta):
+    b.parser_metadata.update(meta)
+    return b
+
 
 
 def maxlen(tier):
